@@ -5,6 +5,7 @@
 From GX.Model Require Import Base HLL.
 From GX.Model Require Import Redis RedisHLL.
 From GX.Proofs Require Import ListLemmas HLLProofs HLLApi RedisHLLRefine.
+From GX.Proofs Require Import NonVacuity.
 
 Section Mem.
 Variable hic : N -> bytes -> N * N.
@@ -84,6 +85,9 @@ Theorem C06_redis_merge_refines : forall s a b ma mb,
   exists s' m, hll_merge ma mb = Ok m /\ rhll_merge s a b = (Ok tt, s') /\
                hrefines s' a m /\ hrefines s' b mb.
 Proof. exact hll_merge_refines. Qed.
+
+Example C06_redis_premises_hold : exists s h mh, hrefines s h mh /\ h_regs mh = [0; 3; 1; 0].
+Proof. exact hrefines_inhabited. Qed.
 
 Print Assumptions C06_mem_state_depends_on_set_only.
 Print Assumptions C06_mem_merge_is_union.
